@@ -702,6 +702,14 @@ class CallsMixin:
         h2, a = st.heap.new_dict(empty_keys(), z3.K(Val, Z.NONE), z3.IntVal(0))
         return [(st.with_heap(h2), Z.mk_ref(a))]
 
+    def bi_defaultdict(self, node, st):
+        """collections.defaultdict(int): a dict whose missing keys read as 0 (and are inserted on read)"""
+        if not (len(node.args) == 1 and isinstance(node.args[0], ast.Name) and node.args[0].id == 'int' and not node.keywords):
+            raise Unsupported("defaultdict with a factory other than int", node)
+        h2, a = st.heap.new_dict(empty_keys(), z3.K(Val, Z.NONE), z3.IntVal(0))
+        self.ddicts.add(z3.simplify(a).sexpr())
+        return [(st.with_heap(h2), Z.mk_ref(a))]
+
     def bi_set(self, node, st):
         if node.args:
             raise Unsupported("set(...) with arguments", node)
@@ -1101,6 +1109,10 @@ class CallsMixin:
     def spec_is_inf(self, node, st):
         (v,) = self._sargs(node, st)
         return Z.mk_b(z3.Or(Z.is_pinf(v), Z.is_ninf(v)))
+
+    def spec_is_nan(self, node, st):
+        (v,) = self._sargs(node, st)
+        return Z.mk_b(Z.is_nan(v))
 
     def spec_is_pinf(self, node, st):
         (v,) = self._sargs(node, st)
